@@ -18,7 +18,14 @@ import (
 // Tie A, part 2: facts read off the source text of /repo with go/ast.  Every pattern that is
 // expected but not found is a loud failure (exit 4): a broken tie is never a silent skip.
 
-const repoRoot = "/repo"
+// the tree under test; VERIF_REPO is set only by the self-validation tools (tools/mutcheck.sh), which run a
+// private copy of /verif against a scratch worktree with a seeded change applied
+var repoRoot = func() string {
+	if r := os.Getenv("VERIF_REPO"); r != "" {
+		return r
+	}
+	return "/repo"
+}()
 
 type srcFile struct {
 	path string
@@ -238,6 +245,49 @@ func callsLean(cs []callFact) string {
 		p = append(p, fmt.Sprintf("⟨%s, [%s], %s, [%s]⟩", strconv.Quote(c.method), strings.Join(nums, ", "), leanStrList(ids), strings.Join(texts, ", ")))
 	}
 	return "[" + strings.Join(p, ",\n   ") + "]"
+}
+
+
+// cases of every `switch <x>.Type()` / `switch newType` statement of a function: (label, body text)
+type caseFact struct{ label, body string }
+
+func typeSwitchCases(fd *ast.FuncDecl) []caseFact {
+	var out []caseFact
+	ast.Inspect(fd.Body, func(n ast.Node) bool {
+		sw, ok := n.(*ast.SwitchStmt)
+		if !ok || sw.Tag == nil {
+			return true
+		}
+		tag := exprStr(sw.Tag)
+		if !strings.HasSuffix(tag, ".Type()") && tag != "newType" {
+			return true
+		}
+		for _, st := range sw.Body.List {
+			cc := st.(*ast.CaseClause)
+			var body []string
+			for _, b := range cc.Body {
+				body = append(body, exprStr(b))
+			}
+			for _, l := range cc.List {
+				out = append(out, caseFact{exprStr(l), strings.Join(body, "; ")})
+			}
+		}
+		return true
+	})
+	return out
+}
+
+func casesLean(name string, rows [][3]string) string {
+	var sb strings.Builder
+	fmt.Fprintf(&sb, "def %s : List (String × String × String) :=\n  [", name)
+	for i, r := range rows {
+		if i > 0 {
+			sb.WriteString(",\n   ")
+		}
+		fmt.Fprintf(&sb, "(%s, %s, %s)", strconv.Quote(r[0]), strconv.Quote(r[1]), strconv.Quote(r[2]))
+	}
+	sb.WriteString("]\n")
+	return sb.String()
 }
 
 // ---- inventories ----------------------------------------------------------------------------
@@ -579,6 +629,27 @@ func init() {
 				return true
 			})
 			fmt.Fprintf(&sb, "def %s : String := %s\n", t.lean, strconv.Quote(cond))
+		}
+		// operator bodies per operand type, conversion tables (variants/*.go)
+		av := parseRepoFile("variants/AbstractVariantOperations.go")
+		var opRows [][3]string
+		for _, m := range []string{"Add", "Sub", "Mul", "Div", "Mod", "Pow", "And", "Or", "Xor", "Lsh", "Rsh", "Not", "Negative", "Equal", "NotEqual", "More", "Less", "MoreEqual", "LessEqual"} {
+			for _, cf := range typeSwitchCases(findFunc(av, m)) {
+				opRows = append(opRows, [3]string{m, cf.label, cf.body})
+			}
+		}
+		sb.WriteString(casesLean("opCases", opRows))
+		for _, t := range []struct{ lean, file string }{{"unsafeConvCases", "variants/TypeUnsafeVariantOperations.go"}, {"safeConvCases", "variants/TypeSafeVariantOperations.go"}} {
+			f := parseRepoFile(t.file)
+			var rows [][3]string
+			for _, d := range f.Decls {
+				if fd, ok := d.(*ast.FuncDecl); ok && (fd.Name.Name == "Convert" || strings.HasPrefix(fd.Name.Name, "convertFrom")) {
+					for _, cf := range typeSwitchCases(fd) {
+						rows = append(rows, [3]string{fd.Name.Name, cf.label, cf.body})
+					}
+				}
+			}
+			sb.WriteString(casesLean(t.lean, rows))
 		}
 		sb.WriteString("\nend Verif.Gen\n")
 		writeIfChanged(filepath.Join(dir, "Facts.lean"), sb.String())
